@@ -6,6 +6,9 @@ func checks() []check {
 	m := time.Minute
 	_ = m
 	return []check{
+		{ID: "C01", Level: "model_checking", Parts: []part{
+			{Name: "pool-interleavings", Pkg: "pkg/eni", Run: "^TestVerifC01$", Sets: []string{"weave"}, Weave: []string{"pkg/eni"}, ShardsQ: 8, ShardsT: 16},
+		}},
 		{ID: "C14", Level: "model_checking", Parts: []part{
 			{Name: "u32v4", Pkg: "pkg/tc", Run: "^TestVerifC14U32v4$"},
 			{Name: "u32v6", Pkg: "pkg/tc", Run: "^TestVerifC14U32v6$"},
